@@ -68,7 +68,7 @@ mutual
     | .tuple es => cTargets es
     | .list es => cTargets es
     | .subscript v i => cExpr v ++ cExpr i
-    | e => cExpr e
+    | _ => []          -- not a valid assignment target in Python
   def cTargets : List Expr → List Op
     | [] => []
     | e :: es => cTarget e ++ cTargets es
@@ -231,6 +231,12 @@ def removeLoop (cond : Missing → Bool) : Nat → Nat → List Missing → List
     | none => l
     | some m => if cond m then removeLoop cond fuel (i + 1) (l.eraseIdx i) else removeLoop cond fuel (i + 1) l
 
+/-- `_visit_Load_defered_global`: deferred with the *uncloned* current stack -/
+def deferGlobal (reg : Registry) (st : AState) (name : Str) : AState :=
+  let r := symbolNeedsImport reg st.heap st.stack.ids name
+  let st := st.emit r.2
+  if r.1 then { st with deferred := st.deferred ++ [⟨name, st.stack.ids, st.line⟩] } else st
+
 def step (reg : Registry) (st : AState) : Op → AState
   | .setLine n => { st with line := n }
   | .load name =>
@@ -268,11 +274,7 @@ def step (reg : Registry) (st : AState) : Op → AState
   | .dunderClass => if st.inClass ≠ 0 then storeTop st "__class__".toList else st
   | .storeIfNotInClass name => if st.inClass = 0 then storeTop st name else st
   | .allNames names =>
-    if st.inFunc then st
-    else names.foldl (fun st n =>
-      let r := symbolNeedsImport reg st.heap st.stack.ids n
-      let st := st.emit r.2
-      if r.1 then { st with deferred := st.deferred ++ [⟨n, st.stack.ids, st.line⟩] } else st) st
+    if st.inFunc then st else names.foldl (deferGlobal reg) st
   | .delName name =>
     let i := st.stack.top
     if ((st.heap.get i).get name).isSome then
